@@ -443,7 +443,7 @@ type c06Gate struct {
 }
 
 var c06Gates = map[string]c06Gate{
-	"runtimeState.certGenHandler":                      {kind: "mask", mask: "any", extra: "self", exercised: c06EffSigned, targets: []string{"alice", "bob", "admin"}},
+	"runtimeState.certGenHandler":                      {kind: "mask", mask: "any", extra: "self", exercised: c06EffSigned, targets: []string{"alice", "bob", "admin", "svc-automation"}},
 	"runtimeState.publicPathHandler":                   {kind: "public"},
 	"runtimeState.loginHandler":                        {kind: "password", exercised: c06EffSigned},
 	"runtimeState.logoutHandler":                       {kind: "public"},
@@ -1022,7 +1022,7 @@ func c06Setup(t *testing.T, cfg c06Config, mat *c06Material, fakes *c06Fakes) *v
 	deniedFP, _ := getKeyFingerprint(&mat.deniedKeys.ec.PublicKey)
 	env := verifSetup(t, func(c *AppConfigFile, dir string) {
 		c.Base.AllowedAuthBackendsForWebUI = cfg.webui
-		c.Base.AllowedAuthBackendsForCerts = []string{"U2F", "TOTP", "ip_certificate"}
+		c.Base.AllowedAuthBackendsForCerts = []string{proto.AuthTypeU2F, proto.AuthTypeTOTP, proto.AuthTypeIPCertificate}
 		c.Base.AdminUsers = []string{"admin"}
 		c.Base.AutomationUsers = []string{"svc-automation"}
 		c.Base.AutomationAdmins = []string{"autoadm"}
@@ -1135,6 +1135,9 @@ func TestVerif_C06(t *testing.T) {
 				shapeCoq = append(shapeCoq, fmt.Sprintf("(%s, %s) (* %s *)", s.tls, s.cred, s.name))
 			}
 			c06GateCases(p, thorough, &gateCases, &gateIdx)
+		}
+		if ci == 0 {
+			c06RealTLS(p, hit)
 		}
 		if cfg.okta {
 			// the Okta authenticator only knows users that logged in through it recently
@@ -1264,7 +1267,7 @@ func TestVerif_C06(t *testing.T) {
 							if !full && !reduced {
 								continue
 							}
-							if ti > 0 && !(s.cookieValid || s.kmCert || s.basicUser != "") {
+							if ti > 0 && !(s.cookieValid || s.hasTLS || s.basicUser != "") {
 								continue
 							}
 							if thorough && ti > 0 && !o.core {
@@ -1365,6 +1368,7 @@ func TestVerif_C06(t *testing.T) {
 		res.sample(routeIdx[len(routeIdx)/3])
 		res.sample(routeIdx[2*len(routeIdx)/3])
 	}
+	res.Extra["real_tls"] = realTLSLog
 	res.Extra["shapes"] = len(shapeCoq)
 	res.Extra["route_probes"] = nRoute
 	res.Extra["gate_calls"] = len(gateCases)
@@ -1498,6 +1502,135 @@ func c06GateCases(p *c06Prober, thorough bool, cases, idx *[]string) {
 		}
 	}
 }
+
+
+// ---------------------------------------------------------------- real TLS handshakes
+
+// The probes above hand the handlers a ConnectionState built by the harness.  Here the same
+// certificates go through a real handshake (crypto/tls server with the service port's client CA
+// pool and VerifyClientCertIfGiven): the verified chains are whatever the TLS stack builds, the
+// peer address is the real socket address.  Each observation must equal the synthetic one.
+var realTLSLog []string
+
+func c06RealTLS(p *c06Prober, hit func(verifHit)) {
+	st := p.env.state
+	srv := httptest.NewUnstartedServer(p.handler)
+	srv.TLS = &tls.Config{ClientCAs: st.ClientCAPool, ClientAuth: tls.VerifyClientCertIfGiven, MinVersion: tls.VersionTLS12}
+	srv.StartTLS()
+	defer srv.Close()
+	mainCA := st.caCertDer[len(st.caCertDer)-1]
+	mainCACert, _ := x509.ParseCertificate(mainCA)
+	roleCACert, _ := x509.ParseCertificate(st.selfRoleCaCertDer)
+	nb := time.Now().Add(-5 * time.Minute)
+	type tc struct {
+		name   string
+		leaf   *x509.Certificate
+		issuer *x509.Certificate
+		key    *ecdsa.PrivateKey
+	}
+	mk := func(name string, caDer []byte, signer crypto.Signer, issuer *x509.Certificate, cn string, key *verifKeys, ext []pkix.Extension) tc {
+		leaf, _ := verifClientChain(caDer, signer, cn, nb, &key.ec.PublicKey, ext)
+		return tc{name, leaf, issuer, key.ec}
+	}
+	loop := env127()
+	ipLeaf := func(cn, cidr string) *x509.Certificate {
+		ch := p.env.ipRestrictedChain(cn, []net.IPNet{mustCIDR(cidr)}, &p.mat.keys.ec.PublicKey)
+		return ch[0][0]
+	}
+	_ = loop
+	certs := []tc{
+		mk("km-alice", mainCA, st.Signer, mainCACert, "alice", p.mat.keys, nil),
+		mk("km-admin", mainCA, st.Signer, mainCACert, "admin", p.mat.keys, nil),
+		mk("km-denied-key", mainCA, st.Signer, mainCACert, "alice", p.mat.deniedKeys, nil),
+		{"ip-loopback-block", ipLeaf("svc-automation", "127.0.0.0/8"), roleCACert, p.mat.keys.ec},
+		{"ip-other-block", ipLeaf("svc-automation", "10.0.0.0/8"), roleCACert, p.mat.keys.ec},
+		mk("foreign-ca", p.mat.foreignCA.Raw, p.mat.foreignKey, p.mat.foreignCA, "admin", p.mat.keys, nil),
+	}
+	type rq struct{ method, path, key string }
+	reqs := []rq{{"GET", usersPath, "runtimeState.usersHandler"}, {"POST", refreshRoleRequestingCertPath, "runtimeState.refreshRoleRequestingCertGenHandler"},
+		{"POST", certgenPath + "svc-automation", "runtimeState.certGenHandler"}, {"GET", "/u2f/SignRequest", "runtimeState.u2fSignRequest"}}
+	for _, c := range certs {
+		client := &http.Client{Transport: &http.Transport{TLSClientConfig: &tls.Config{InsecureSkipVerify: true,
+			Certificates: []tls.Certificate{{Certificate: [][]byte{c.leaf.Raw}, PrivateKey: c.key}}}, DisableKeepAlives: true},
+			CheckRedirect: func(*http.Request, []*http.Request) error { return http.ErrUseLastResponse }}
+		for _, q := range reqs {
+			route := verifRoute{Path: q.path}
+			build := func() *http.Request {
+				var r *http.Request
+				switch q.key {
+				case "runtimeState.certGenHandler":
+					r = verifCertgenRequest(q.method, "svc-automation", "x509", p.mat.keys.pemPub, nil, nil)
+				case "runtimeState.refreshRoleRequestingCertGenHandler":
+					r = verifNewRequest(q.method, q.path, roleCertForm("", nil, p.mat.keys.derPubRU))
+				default:
+					r = verifNewRequest(q.method, q.path, nil)
+				}
+				return r
+			}
+			_ = route
+			// synthetic
+			sreq := build()
+			withTLS(sreq, [][]*x509.Certificate{{c.leaf, c.issuer}}, "127.0.0.1:4711")
+			so := p.serve(sreq)
+			// real
+			rreq := build()
+			u, _ := url.Parse(srv.URL + rreq.URL.RequestURI())
+			rreq.URL = u
+			rreq.RequestURI = ""
+			rreq.Host = "keymaster.example"
+			p.log.last = nil
+			before := p.mapsDigest()
+			resp, err := client.Do(rreq)
+			ro := c06Obs{status: -1}
+			if err == nil {
+				body, _ := ioutil.ReadAll(resp.Body)
+				resp.Body.Close()
+				rr := httptest.NewRecorder()
+				rr.Code = resp.StatusCode
+				for k, v := range resp.Header {
+					rr.Header()[k] = v
+				}
+				rr.Body.Write(body)
+				ro.status = resp.StatusCode
+				if p.log.last != nil && p.log.last.Username != "-" {
+					ro.user = p.log.last.Username
+				}
+				if p.signedMaterial(rr) {
+					ro.effects |= c06EffSigned
+				}
+				if bytes.Contains(body, []byte("vrfcanary")) {
+					ro.effects |= c06EffRead
+				}
+				if _, d := p.tableRows(); d != p.baseDig {
+					ro.effects |= c06EffChange
+					p.restoreTables()
+				}
+				if p.mapsDigest() != before {
+					ro.effects |= c06EffStart
+				}
+				p.resetMaps()
+			}
+			p.res.eval(fmt.Sprintf("realtls|%s|%s|%d|%s|%d", c.name, q.path, ro.status, ro.user, ro.effects), ro.user != "" || ro.effects != 0)
+			p.res.bump("real-tls-handshake")
+			realTLSLog = append(realTLSLog, fmt.Sprintf("%s %s %s -> %d user=%q effects=%v", c.name, q.method, q.path, ro.status, ro.user, c06EffNames(ro.effects)))
+			desc := map[string]interface{}{"certificate": c.name, "method": q.method, "route": q.path}
+			if c.name == "foreign-ca" {
+				// the TLS layer refuses an unknown CA; if it ever lets it through nothing may be let in
+				if err == nil && (ro.user != "" || ro.effects != 0) {
+					hit(verifHit{Key: "C06:real-tls:foreign-ca", Oracle: "a certificate of an unknown CA presented in a real handshake is let in", What: fmt.Sprintf("%s %s: user %q effects %v", q.method, q.path, ro.user, c06EffNames(ro.effects)), Case: desc})
+				}
+				continue
+			}
+			if err != nil || ro.status != so.status || ro.user != so.user || ro.effects != so.effects {
+				hit(verifHit{Key: "C06:real-tls:" + c.name, Oracle: "a real TLS handshake and the harness-built connection state are treated differently",
+					What: fmt.Sprintf("%s %s with certificate %s: real handshake -> status %d user %q effects %v (err %v); synthetic chain [leaf, CA] from 127.0.0.1 -> status %d user %q effects %v",
+						q.method, q.path, c.name, ro.status, ro.user, c06EffNames(ro.effects), err, so.status, so.user, c06EffNames(so.effects)), Case: desc})
+			}
+		}
+	}
+}
+
+func env127() string { return "127.0.0.1" }
 
 // ---------------------------------------------------------------- fake Okta
 
